@@ -115,6 +115,122 @@ def run_jobserver_case(root, g, tokens, j, k, faults, sleepy, console=()):
         sim.close()
 
 
+def run_load_case(root, g, j, maxload, load, k, faults):
+    """-l N with a scripted load average (LD_PRELOAD shim): above N ninja may only start a command while nothing runs
+    (and must still do that, or the build would never end)"""
+    from .. import build
+    sim = e2e.RealSim(root, g)
+    labels = set()
+    try:
+        if not sim.establish():
+            return None, labels
+        cmds = sim.cmd_edges()
+        if not cmds:
+            return None, labels
+        for e in cmds:
+            for o in all_outs(e):
+                sim.delete(o)
+        lf = os.path.join(root, "loadavg.%d" % os.getpid())
+        with open(lf, "w") as f:
+            f.write("%.2f\n" % load)
+        sim.extra_env = {"LD_PRELOAD": build.c_tool("loadavg_shim", ("-shared", "-fPIC")), "VERIF_LOADAVG_FILE": lf,
+                         "VERIF_SLEEP": ",".join("%s:%d" % (key(e), 15 + 10 * (i % 3)) for i, e in enumerate(cmds))}
+        sim.extra_args = ["-l", "%g" % maxload]
+        fl = {}
+        for (a, code) in faults:
+            fl[key(cmds[a % len(cmds)])] = dict(fail=code, fail_touch=False)
+        targets = [key(e) for e in sim.g['edges']]
+        req = sim.request(targets, j=j, k=k, faults=fl or None)
+        sim.time_limit = 45
+        detail = dict(j=j, l=maxload, load=load, k=k, faults=faults, manifest=graphs.manifest(sim.g)[-400:])
+        try:
+            res = sim.execute(req)
+        except ProbeDied as d:
+            detail.update(died=d.died, output=d.stderr[-300:])
+            if d.died.get('timeout'):
+                return dict(kind="ninja -l did not terminate within %d s (state %r when killed)" % (d.died.get('seconds', 0), d.died.get('state_when_killed')),
+                            detail=detail), labels
+            return dict(kind="ninja -l died: %s" % json.dumps(d.died), detail=detail), labels
+        finally:
+            try:
+                os.unlink(lf)
+            except OSError:
+                pass
+        detail['output'] = res['err'][-400:]
+        starts = [ev for ev in res['trace'] if ev['ev'] == 'start']
+        # the manual: "do not start new jobs if the load average is greater than N" - only that is asserted (the code is
+        # stricter: it starts trunc(N - load) commands per round)
+        saturated = load > maxload
+        limit = 1 if saturated else j
+        if starts:
+            labels.add('load_build')
+        if saturated:
+            labels.add('load_saturated')
+        if any(ev['running'] for ev in starts):
+            labels.add('load_parallel')
+        for ev in starts:
+            if len(ev['running']) + 1 > limit:
+                return dict(kind="more commands running (%d) than the load limit allows (%d: -j%d, -l %g at load %g)" % (
+                    len(ev['running']) + 1, limit, j, maxload, load), detail=detail), labels
+        seen = set()
+        for ev in starts:
+            if ev['edge'] in seen:
+                return dict(kind="command of %s run twice in one invocation" % ev['edge'], detail=detail), labels
+            seen.add(ev['edge'])
+        if "stuck" in res['err']:
+            return dict(kind="ninja reported 'stuck'", detail=detail), labels
+        if not fl:
+            if res['status'] != 0:
+                return dict(kind="build under -l failed without an injected fault (status %d)" % res['status'], detail=detail), labels
+            missing = sorted(key(e) for e in cmds if key(e) not in seen)
+            if missing:
+                return dict(kind="build under -l ended with success without running %s" % missing, detail=detail), labels
+        elif res['status'] == 0:
+            return dict(kind="build under -l with a failing command ended with success", detail=detail), labels
+        return None, labels
+    finally:
+        sim.close()
+
+
+def load_worker(widx, n_examples):
+    res = common.Result()
+    state = {}
+    budget = common.ShrinkBudget()
+    root = common.scratch_root()
+    try:
+        @hseed(common.sub_seed(PROP, 'load', widx))
+        @settings(max_examples=n_examples, deadline=None, database=None, suppress_health_check=list(HealthCheck),
+                  phases=[Phase.generate, Phase.shrink], verbosity=Verbosity.quiet, report_multiple_bugs=False)
+        @given(graphs.graphs(max_edges=6, features=dict(unordered_hidden=False)), st.sampled_from([2, 3, 8]), st.sampled_from([1, 2, 2.5, 4]),
+               st.sampled_from([0, 0.5, 1.1, 2.6, 4.5, 7, 7]), st.sampled_from([1, 1, 2, 0]),
+               st.lists(st.tuples(st.integers(0, 20), st.sampled_from([1, 2, 255])), max_size=1))
+        def test(g, j, maxload, load, k, faults):
+            case = dict(g=g, j=j, maxload=maxload, load=load, k=k, faults=[list(f) for f in faults], kind='load')
+            dg = common.digest(case)
+            if budget.skip(dg):
+                return
+            f, labels = run_load_case(root, g, j, maxload, load, k, faults)
+            res.case(case, 'load_build' in labels and ('load_saturated' in labels or 'load_parallel' in labels), ['load:' + l for l in labels],
+                     sample=dict(j=j, l=maxload, load=load, k=k, faults=case['faults']) if 'load_saturated' in labels else None)
+            if f:
+                state['fail'] = (case, "[real binary, -l] %s %s" % (f['kind'], json.dumps(f['detail'], default=repr)[:1200]))
+                budget.failed(dg)
+                raise AssertionError()
+        common.run_hypothesis(test, state, res)
+    finally:
+        shutil.rmtree(root, ignore_errors=True)
+    return res
+
+
+def replay_load(case):
+    root = common.scratch_root()
+    try:
+        f, _ = run_load_case(root, case['g'], case['j'], case['maxload'], case['load'], case['k'], [tuple(x) for x in case['faults']])
+    finally:
+        shutil.rmtree(root, ignore_errors=True)
+    return f['kind'] if f else None
+
+
 def jobserver_worker(widx, n_examples):
     res = common.Result()
     state = {}
@@ -175,6 +291,18 @@ def run(tier):
             ck.violation(f['case'], f['why'])
         else:
             ck.res.notes.append("FLAKY %d/3: %s" % (fails, f['why'][:200]))
+    rl = common.run_workers(load_worker, [(w, (400 if tier == 'thorough' else 12)) for w in range(common.NCPU)])
+    ck.merge(rl)
+    for f in rl.failures:
+        if f.get('harness_error'):
+            continue
+        fails = sum(1 for _ in range(3) if replay_load(f['case']))
+        if fails == 3:
+            ck.violation(f['case'], f['why'])
+        else:
+            ck.res.notes.append("FLAKY %d/3: %s" % (fails, f['why'][:200]))
+    ck.rule += (" E2E load-limit part: the real binary with -l N and a scripted load average (LD_PRELOAD shim for getloadavg): with spare capacity "
+                "trunc(N - load) <= 0 never two commands at once, yet the build ends and runs everything; otherwise concurrency <= -j.")
     ck.rule += (" E2E jobserver part: generated graph built from scratch by the real binary as a client of a fifo jobserver with 0-3 tokens, -j 1..8, -k, "
                 "injected failures incl. exit code 130; the fifo must hold all tokens afterwards and concurrency must stay <= tokens+1.")
     return ck.finish()
@@ -183,6 +311,14 @@ def run(tier):
 def replay(path):
     j = json.load(open(path))
     case = j.get('case', j)
+    if case.get('kind') == 'load':
+        why = replay_load(case)
+        if why:
+            print("finding:", why)
+            print("VIOLATION property=%s replay=%s" % (PROP, path))
+            return 1
+        print("replay: no violation")
+        return 0
     if 'tokens' in case:
         why = replay_js(case)
         if why:
